@@ -20,7 +20,8 @@
 // and after the value); part H (comp: Close inside a compressed batch followed
 // by more batches); part I (msgcut: ReadMessage over every cut); part J (split:
 // frame 1 delivered in two pieces, cut column "s<k>", or "es<k>" with the later
-// frames already on the wire).  The OCaml driver
+// frames already on the wire); part K (trunc2: a complete frame whose magic-2
+// batch was truncated by the broker inside the last record).  The OCaml driver
 // evaluates the extracted Coq model (Model/ConnOps.v conn_run) on the part
 // before the first '|'.
 package main
@@ -1429,8 +1430,128 @@ func genAll(seed int64, tier string) {
 	nH := genComp(seed + 44444)
 	nI := genMsgCut(seed + 55555)
 	nJ := genSplit(seed + 66666)
-	fmt.Fprintf(os.Stderr, "c11: part A %d cases, part B %d cases, part C %d cases, part D %d cases, part E %d cases, part F %d cases, part G %d cases, part H %d cases, part I %d cases, part J %d cases\n",
-		counts["A"], counts["B"], nC, nD, nE, nF, nG, nH, nI, nJ)
+	nK := genTrunc2(seed + 77777)
+	fmt.Fprintf(os.Stderr, "c11: part A %d cases, part B %d cases, part C %d cases, part D %d cases, part E %d cases, part F %d cases, part G %d cases, part H %d cases, part I %d cases, part J %d cases, part K %d cases\n",
+		counts["A"], counts["B"], nC, nD, nE, nF, nG, nH, nI, nJ, nK)
+}
+
+// ---------------------------------------------------------------------------
+// PART K: the broker truncated the message set inside the last record of a
+// magic-2 batch (MaxBytes truncation: the frame is complete and consistent, the
+// batch header still describes the full batch).  The client must stop at the
+// frame boundary, not read the missing bytes from the next response.
+// ---------------------------------------------------------------------------
+
+func genTrunc2(seed int64) int {
+	r := rand.New(rand.NewSource(seed))
+	count := 0
+	hb := opSpec{"heartbeat", 0, 0}
+	lo := opSpec{"listoffsets", 1, 0}
+	for _, ver := range []int{2, 10} {
+		for nwhole := 0; nwhole <= 3; nwhole++ {
+			for _, nhdr := range []int{0, 2} {
+				off := rndOff(r)
+				n := nwhole + 1
+				msgs := make([]drainMsg, n)
+				var recs [][]byte
+				for i := range msgs {
+					m := drainMsg{off: off + int64(i), val: make([]byte, 6+r.Intn(7))}
+					r.Read(m.val)
+					if r.Intn(3) != 0 {
+						m.key = rsmall(r, 3)
+					}
+					msgs[i] = m
+					var b enc
+					b.i8(0)                     // attributes
+					b.varint(int64(r.Intn(50))) // timestamp delta
+					b.varint(int64(i))          // offset delta
+					if m.key == nil {
+						b.varint(-1)
+					} else {
+						b.varint(int64(len(m.key)))
+						b.b = append(b.b, m.key...)
+					}
+					b.varint(int64(len(m.val)))
+					b.b = append(b.b, m.val...)
+					b.varint(int64(nhdr))
+					for h := 0; h < nhdr; h++ {
+						hk, hv := make([]byte, 3), make([]byte, 4)
+						r.Read(hk)
+						r.Read(hv)
+						b.varint(3)
+						b.b = append(b.b, hk...)
+						b.varint(4)
+						b.b = append(b.b, hv...)
+					}
+					var rec enc
+					rec.varint(int64(len(b.b)))
+					recs = append(recs, append(rec.b, b.b...))
+				}
+				var all []byte
+				for _, rc := range recs {
+					all = append(all, rc...)
+				}
+				ts := r.Int63n(1 << 41)
+				var e enc
+				e.i64(off)                  // base offset
+				e.i32(int32(49 + len(all))) // batch length of the FULL batch
+				e.i32(ri32(r))              // partition leader epoch
+				e.i8(2)                     // magic
+				e.i32(int32(r.Uint32()))    // crc
+				e.i16(0)                    // attributes
+				e.i32(int32(nwhole))        // last offset delta
+				e.i64(ts)
+				e.i64(ts + 50)
+				e.i64(-1)
+				e.i16(-1)
+				e.i32(-1)
+				e.i32(int32(n)) // record count
+				full := append(e.b, all...)
+				reclen := len(recs[nwhole])
+				lob := genBody(r, "listoffsets", 1, site{}, fetchOpt{})
+				hdrSeed := r.Int63() // the fetch header fields are the same for every t
+				type opk struct {
+					name string
+					acts []int64
+				}
+				rep := func(v int64) []int64 {
+					a := make([]int64, n)
+					for i := range a {
+						a[i] = v
+					}
+					return a
+				}
+				ops := []opk{{"fetchread", rep(-1)}, {"fetchread", rep(64)}}
+				if nwhole == 0 {
+					ops = append(ops, opk{"connreadmsg", []int64{4096}}, opk{"connread", []int64{64}})
+				}
+				for t := 1; t < reclen; t++ {
+					ms := full[:len(full)-reclen+t]
+					fr := frame(2, fetchBodyF(rand.New(rand.NewSource(hdrSeed)), ver, off+100, ms))
+					frames := [][]byte{fr, frame(3, []byte{0, 0}), frame(4, lob.body)}
+					for _, o := range ops {
+						for _, mode := range []string{"plain", "eager"} {
+							tc := &tcase{
+								topic:  ownTopic,
+								cut:    -1,
+								ops:    []opSpec{{o.name, ver, off}, hb, lo},
+								acts:   map[int][]int64{0: o.acts},
+								frames: frames,
+								tags: fmt.Sprintf("trunc2,op=%sv%d,nwhole=%d,hdr=%d,t=%d,reclen=%d,mode=%s,next=heartbeatv0,next2=listoffsetsv1",
+									o.name, ver, nwhole, nhdr, t, reclen, mode) + wantTag(msgs[:nwhole]),
+							}
+							if mode == "eager" {
+								tc.split, tc.eager = 1, true
+							}
+							emit(tc)
+							count++
+						}
+					}
+				}
+			}
+		}
+	}
+	return count
 }
 
 // ---------------------------------------------------------------------------
